@@ -2,6 +2,7 @@ import Driver.Util
 import Driver.Plug
 import Driver.File
 import Driver.Dispatch
+import Driver.Prefix
 open CoreDhcp
 namespace Drv.SysE
 
@@ -12,6 +13,14 @@ structure St where
   chain6 : List Sys.Elem6 := []
   /-- state of the `range` plugin when it is in the chain (as the placeholder `.lease none`) -/
   range  : Option RState := none
+  /-- state of the `prefix` plugin when it is in the chain (as the placeholder `.pd []`), whether its pool is
+  well-formed, and what the observed replies told which client so far -/
+  pfx    : Option PState := none
+  pwf    : Bool := false
+  held   : List Held := []
+  /-- clients one of whose requests with IA_PDs went without a reply: `prefix` may have delegated blocks to them that no
+  observed reply shows, so "answered from what it was told, and nothing else" (C09) cannot be judged for them any more -/
+  tainted : List ClientKey := []
   known  : Bool := true
 deriving Inhabited
 
@@ -163,30 +172,97 @@ def diff6 (m o : Sys.Out6) : List String :=
   match m, o with
   | .send lm rm im, .send lo ro io =>
     (if (rm.mt, rm.xid) != (ro.mt, ro.xid) then ["header"] else []) ++
-    (if rm.opts != ro.opts then ["opts"] else []) ++
+    (let is25 := fun (o : Nat × List Nat) => o.1 == 25
+     if rm.opts.filter is25 != ro.opts.filter is25 then ["pd"] else []) ++
+    (let not25 := fun (o : Nat × List Nat) => !(o.1 == 25)
+     if rm.opts.filter not25 != ro.opts.filter not25 then ["opts"]
+     else if rm.opts != ro.opts && rm.opts.filter (fun o => o.1 == 25) == ro.opts.filter (fun o => o.1 == 25) then ["opts"] else []) ++
     (if lm != lo then ["relay"] else []) ++
     (if im != io then ["dest"] else [])
   | a, b => if a == b then [] else ["sent"]
 
-def stepDg6 (st : St) (bound oob src : String) (res : String) : List String :=
-  match (res.splitOn " ; ").map words with
+/-- the request as the library parsed it: `U`, or `P <mac> <tree>` -/
+def parseIn6 (parsed : List String) : Option (Option Sys.Pkt6) :=
+  match parsed with
+  | ["U"] => some none
+  | "P" :: mac :: tree =>
+    let mac : Option (Option (List Nat)) := if mac == "-" then some none else if mac == "e" then some (some []) else (parseHex mac).map some
+    match mac, parseTree tree [] with
+    | some mac, some (ls, m) => some (some ⟨ls, m, mac⟩)
+    | _, _ => none
+  | _ => none
+
+/-- lifetimes are read off the wall clock: a fresh or renewed lease has 3600 s less the time the
+handler took (the harness gives up after 8 s) -/
+def canonLife (n : Nat) : Nat := if 3592 ≤ n ∧ n ≤ 3600 then 3600 else n
+
+/-- an IA_PD option in canonical wire form (IAID, T1 = T2 = 0, IAPrefix sub-options with preferred =
+valid, or the bare NoPrefixAvail status) with its lifetimes canonicalised; anything else is left as it is -/
+def canonPd (o : Nat × List Nat) : Nat × List Nat :=
+  if o.1 != 25 then o else
+  match Sys.decIAPD o.2 with
+  | some a => if Sys.encIAPD a == o.2 then (25, Sys.encIAPD { a with pfxs := a.pfxs.map (fun p => (p.1, canonLife p.2)) }) else o
+  | none => o
+
+def canonOut6 : Sys.Out6 → Sys.Out6
+  | .send ls r i => .send ls { r with opts := r.opts.map canonPd } i
+  | o => o
+
+/-- the IA_PDs of the request as the library hands them to `prefix`:
+`k { iapd <iaid> <h> { hint e | hint p <ip> <ones> <bits> } }` -/
+partial def parseIAPDs6 : Nat → List String → Option (List IAPDReq)
+  | 0, [] => some []
+  | 0, _ => none
+  | k+1, "iapd" :: iaid :: nh :: rest =>
+    match (parseHex iaid).map bytesToNat, nh.toNat? with
+    | some iaid, some nh =>
+      let rec hints : Nat → List String → Option (List HintP × List String)
+        | 0, r => some ([], r)
+        | n+1, "hint" :: "e" :: r => (hints n r).map (fun (hs, r') => (HintP.empty :: hs, r'))
+        | n+1, "hint" :: "p" :: ip :: ones :: bits :: r =>
+          match parseHex ip, ones.toNat?, bits.toNat? with
+          | some ipb, some ones, some bits =>
+            match addrOfBytes ipb with
+            | some a =>
+              let h : HintP := if bits == 0 then .nomask a (isV4Mapped ipb) else .pfx a (isV4Mapped ipb) ones
+              (hints n r).map (fun (hs, r') => (h :: hs, r'))
+            | none => none
+          | _, _, _ => none
+        | _, _ => none
+      match hints nh rest with
+      | some (hs, rest') => (parseIAPDs6 k rest').map (fun qs => ⟨iaid, hs⟩ :: qs)
+      | none => none
+    | _, _ => none
+  | _, _ => none
+
+/-- `PState.handleMsg` with the allocator policy of the code (`NextClear(0)`): used when a reply was not sent, so that
+the blocks `prefix` took cannot be read off it. Same loops as `PState.handleIAPD`; each `Allocate` is offered the first fit. -/
+def handleMsgFF (s : PState) (c : ClientKey) (now : Int) : List IAPDReq → PState
+  | [] => s
+  | iapd :: rest =>
+    let hints := if iapd.hints.isEmpty then [HintP.empty] else iapd.hints
+    let known := s.leasesOf c
+    let st0 : LoopSt := ⟨s.alloc, known.map (fun l => (l, false)), hints.map (fun h => (h, false)), [], false⟩
+    let st2 := loop2 now (loop1 now st0)
+    let st3 := st2.hs.foldl (fun (st : LoopSt) q =>
+      match loop3Step now (some (st, [st.alloc.firstFit])) q with
+      | some (st', _) => st'
+      | none => st) st2
+    let recs' := if st3.fresh || !known.isEmpty then s.put c (st3.ls.map (·.1)) else s.recs
+    handleMsgFF ⟨st3.alloc, recs'⟩ c now rest
+
+def stepDg6 (st : St) (chain6 : List Sys.Elem6) (bound oob src : String) (res : String) : List String :=
+  match ((res.splitOn " ; ").map words).take 2 with
   | [parsed, outW] =>
     match bound.toNat?, addr16 src with
     | none, _ | _, none => ["DIVERGE drift unparsed-op"]
     | some bound, some src =>
     let oob := oobOf oob
-    let input : Option (Option Sys.Pkt6) := match parsed with
-      | ["U"] => some none
-      | "P" :: mac :: tree =>
-        let mac : Option (Option (List Nat)) := if mac == "-" then some none else if mac == "e" then some (some []) else (parseHex mac).map some
-        match mac, parseTree tree [] with
-        | some mac, some (ls, m) => some (some ⟨ls, m, mac⟩)
-        | _, _ => none
-      | _ => none
+    let input : Option (Option Sys.Pkt6) := parseIn6 parsed
     match input with
     | none => ["DIVERGE drift unparsed-view"]
     | some input =>
-      let m := Sys.serve6 bound oob src st.chain6 input
+      let m := Sys.serve6 bound oob src chain6 input
       let brs := (match input with
           | none => ["br:sys6.unparsable"]
           | some d => [if d.layers.isEmpty then "br:sys6.direct" else "br:sys6.relayed"] ++
@@ -195,7 +271,7 @@ def stepDg6 (st : St) (bound oob src : String) (res : String) : List String :=
           | .drop => (match input.bind (fun d => d.msg.bind Sys.stub6) with | some _ => ["br:sys6.dropped-after-stub"] | none => ["br:sys6.drop"])
           | .send _ r i => [if i.isSome then "br:sys6.pinned" else "br:sys6.unpinned"] ++ (if r.opts.length > 1 then ["br:sys6.options-added"] else []) ++
               (if r.opts.any (·.1 == 3) then ["br:sys6.address-assigned"] else [])) ++
-        [s!"br:sys6.chain-len-{min st.chain6.length 4}"]
+        [s!"br:sys6.chain-len-{min chain6.length 4}"]
       match outW with
       | "PANIC" :: _ | "HANG" :: _ | "CRASH" :: _ | ["SKIP", _] =>
         if outW.head? == some "SKIP" then ["br:sys.skip"] else
@@ -210,9 +286,9 @@ def stepDg6 (st : St) (bound oob src : String) (res : String) : List String :=
             [s!"FAIL C12 whole chain: reply sent to {peer} port {port}, the datagram came from {addrHex src} port 546"])
         let frt := if rt == "rt-ok" then [] else [s!"FAIL C19 the reply of the whole chain does not survive the wire: {rt}"]
         if !st.known then brs ++ f12 ++ frt ++ ["br:sys.chain-unknown"] else
-        let d := diff6 m out
+        let d := diff6 m (canonOut6 out)
         -- SYS_C14_drop6 on the observation
-        let f14 := match st.chain6, input with
+        let f14 := match chain6, input with
           | .plug (.serverid c) :: _, some dd =>
             (match dd.msg with
              | some mm => if C14.mustDiscard6 mm.mt (C14.rel6 c ⟨dd.layers.length, mm.mt, mm.opts⟩) && out != .drop then
@@ -280,7 +356,83 @@ def step (st : St) (op res : String) : St × List String :=
         ({ st with range := some (if reached then rs' else rs) },
          msgs ++ (if reached then [match rr with | .reply _ _ => (if (lookupRec rs.recs req.chaddr).isSome then "br:sys.range-known" else "br:sys.range-new") | _ => "br:sys.range-exhausted"] else ["br:sys.range-not-reached"]))
     | _, _ => (st, stepDg4 st st.chain4 bound oob res)
-  | ["sdg6", bound, oob, src, _] => (st, stepDg6 st bound oob src res)
+  | ["sprefix", a, b] =>
+    if res == "SKIP after-hang" then (st, ["br:sys.skip"]) else
+    -- the set-up rule is the one of the prefix engine (Driver/Prefix.lean, `psetup`)
+    let (ps, msgs) := Prefix.step {} s!"psetup {a} {b}" res
+    let msgs := msgs.map (fun m => if m.startsWith "DIVERGE dom " then "DIVERGE dom[pd] " ++ (m.drop 12).toString else m)
+    let implOk := (words res).getLast? == some "ok"
+    match ps.s, implOk with
+    | some s, true => ({ st with chain6 := st.chain6 ++ [.pd []], pfx := some s, pwf := ps.wf, held := [], tainted := [] }, msgs ++ ["br:sys.prefix-ok"])
+    | none, false => (st, msgs ++ ["br:sys.prefix-rejected"])
+    | some _, false => (st, msgs)
+    | none, true => ({ st with known := false, chain6 := st.chain6 ++ [.pd []] }, msgs)
+  | ["sdg6", bound, oob, src, _] =>
+    match st.pfx with
+    | none => (st, stepDg6 st st.chain6 bound oob src res)
+    | some ps =>
+      let secs := (res.splitOn " ; ").map words
+      let pdReq : Option (List IAPDReq) := match secs.getD 2 [] with
+        | ["pd", "-"] => some []           -- no inner message: nothing reaches the handlers
+        | "pd" :: k :: rest => k.toNat?.bind (fun k => parseIAPDs6 k rest)
+        | _ => none
+      match parseIn6 (secs.getD 0 []), pdReq with
+      | some (some d), some iapds =>
+        let cl : Option ClientKey := d.msg.bind (fun m => Plug.lookup 1 m.opts)
+        -- what the reply that was sent says (canonical lifetimes), as a client decodes it
+        let sentOpts : Option (List (Nat × List Nat)) := match parseOut6 (secs.getD 1 []) with
+          | some (.send _ r _, _, _, _) => some ((r.opts.map canonPd).filter (fun o => o.1 == 25))
+          | _ => none
+        let obs : List Sys.PdAns := (sentOpts.getD []).filterMap (fun o => Sys.decIAPD o.2)
+        let obsRs : List IAPDResp := obs.map (fun a => ⟨bytesToNat a.iaid, a.pfxs.map (fun p => (p.1, (p.2 : Int) * 1000000000))⟩)
+        -- choices: the blocks in the reply that the client did not hold, in order (as the prefix engine does)
+        let known := (ps.leasesOf (cl.getD [])).map (·.pfx)
+        let fresh := ((obs.flatMap (fun a => a.pfxs.map (·.1))).filter (fun b => !(known.contains b))).eraseDups
+        let freshIdx := fresh.map (fun b => match ps.alloc.toIndex b.base with | .ok i => some i | .error _ => some ps.alloc.bm.length)
+        let nh := (iapds.map (fun q => q.hints.length + 1)).foldl (· + ·) 0
+        -- monitors on the observation: C08/C09 of Spec/Prefix.lean on what the wire carries. Evaluated when the reply has
+        -- IA_PDs, or must have them by SYS_pd_delivered6 (before `prefix` only plugins that never end the chain)
+        let pre := st.chain6.takeWhile (fun e => !Sys.isPd e)
+        let must := pre.all Sys.neverStops6
+        let (held', fmon) : List Held × List String :=
+          match sentOpts with
+          | some so =>
+            if st.pwf && st.known && (must || !so.isEmpty) && cl.isSome then
+              let mon := PMon.step ps.alloc.pool st.held ⟨cl, iapds, 0, 0, some obsRs⟩
+              (mon.1,
+               (if mon.2.c08 && so.length == obs.length then [] else [s!"FAIL C08 whole chain: the reply that was sent does not answer the IA_PDs of the request as C08 demands: {Plug.short res}"]) ++
+               (if mon.2.c09 || st.tainted.contains (cl.getD []) then [] else [s!"FAIL C09 whole chain: the reply that was sent does not return what the client holds: {Plug.short res} ; held={(heldOf st.held (cl.getD [])).map (fun h => (addrHex h.pfx.base, h.pfx.len))}"]))
+            else (st.held, [])
+          | none => (st.held, [])
+        -- `prefix` runs iff its position is in the invocation log of the model's chain (what it answers plays no part in that)
+        let pos := (st.chain6.findIdx? Sys.isPd).getD 0
+        let reached := match d.msg.bind Sys.stub6 with
+          | some r0 => ((runChain (st.chain6.map Sys.handle6) d 0 (some r0)).2.any (fun p => p.1 == pos))
+          | none => false
+        let st := match cl, sentOpts with
+          | some c, none => if iapds.isEmpty || st.tainted.contains c then st else { st with tainted := c :: st.tainted }
+          | _, _ => st
+        if !reached then ({ st with held := held' }, stepDg6 st st.chain6 bound oob src res ++ ["br:sys.pd-not-reached"] ++ fmon) else
+        -- nothing was sent (an element after `prefix` discarded the message): what `prefix` did is not observable
+        if sentOpts.isNone then
+          let ps' := match cl with | some c => handleMsgFF ps c 0 iapds | none => ps
+          ({ st with pfx := some ps', held := held' }, stepDg6 st st.chain6 bound oob src res ++ ["br:sys.pd-reply-discarded"]) else
+        match ps.handleMsg cl iapds 0 (freshIdx ++ List.replicate nh none) with
+        | none =>
+          ({ st with known := false, held := held' }, stepDg6 st st.chain6 bound oob src res ++ ["br:sys.pd-request", "DIVERGE dom[pd] inadmissible-choice"] ++ fmon)
+        | some (ps', mr, _) =>
+          let out : List Sys.PdAns := match mr with | some rs => Sys.pdOf rs | none => []
+          let chain := st.chain6.map (fun e => match e with | .pd _ => Sys.Elem6.pd out | e => e)
+          let msgs := stepDg6 st chain bound oob src res
+          let brs :=
+            (if iapds.isEmpty then ["br:sys.pd-no-iapd"] else ["br:sys.pd-request"]) ++
+            (if out.any (fun a => a.pfxs.isEmpty) then ["br:sys.pd-noprefixavail"] else []) ++
+            (if !fresh.isEmpty then ["br:sys.pd-new-lease"] else []) ++
+            (if !known.isEmpty && !iapds.isEmpty then ["br:sys.pd-known-client"] else []) ++
+            (if iapds.length > 1 then ["br:sys.pd-multi-iapd"] else [])
+          ({ st with pfx := some ps', held := held' }, msgs ++ brs ++ fmon)
+      | some none, _ => (st, stepDg6 st st.chain6 bound oob src res)
+      | _, _ => (st, stepDg6 st st.chain6 bound oob src res ++ ["DIVERGE drift unparsed-pd-view"])
   | _ => (st, ["DIVERGE drift unparsed-op"])
 
 end Drv.SysE
